@@ -72,4 +72,5 @@ Extraction "model.ml"
   sorts_by_sizeb
   non_increasing
   same_partitionb
+  tarjan_early
 .
